@@ -14,6 +14,11 @@ Definition lin (a b : R) (u v : RV3) : RV3 := Rvadd (Rvscale a u) (Rvscale b v).
 Ltac destr_ifs :=
   repeat match goal with |- context [if ?c then _ else _] => destruct c end.
 
+(* unfold the model completely, whatever helper definitions CoreModel.v is split into (it is another
+   builder's file and gets refactored): everything except the primitives of the reals *)
+Ltac unfold_all :=
+  cbv beta iota zeta delta -[Rplus Rminus Rmult Rdiv Rinv Ropp sqrt Rabs Rltb Reqb PI IZR].
+
 Lemma dipole_inf_eq (m : R) : dipole_inf NumR m = m * / 0.
 Proof.
   unfold dipole_inf. cbn. destruct (Reqb m 0) eqn:E; [|reflexivity].
@@ -40,7 +45,7 @@ Theorem sphere_linear (f : field) (mu0 : R) (o : RV3) (d : R) (P1 P2 : RV3) (a b
   = lin a b (sphere_BH NumR f mu0 o d P1) (sphere_BH NumR f mu0 o d P2).
 Proof.
   destruct o as [[x y] z], P1 as [[p1 p2] p3], P2 as [[q1 q2] q3].
-  unfold lin, Rvadd, Rvscale. destruct f; unfold_model; destr_ifs; apply triple_eq; unfold Rdiv; ring.
+  unfold lin, Rvadd, Rvscale. destruct f; unfold_all; destr_ifs; apply triple_eq; unfold Rdiv; ring.
 Qed.
 
 Theorem polyline_linear (f : field) (mu0 : R) (o p1 p2 : RV3) (i1 i2 a b : R) :
@@ -48,7 +53,7 @@ Theorem polyline_linear (f : field) (mu0 : R) (o p1 p2 : RV3) (i1 i2 a b : R) :
   = lin a b (polyline_BH NumR f mu0 o p1 p2 i1) (polyline_BH NumR f mu0 o p1 p2 i2).
 Proof.
   destruct o as [[x y] z], p1 as [[a1 a2] a3], p2 as [[b1 b2] b3].
-  unfold lin, Rvadd, Rvscale. destruct f; unfold_model; destr_ifs; cbn [snd];
+  unfold lin, Rvadd, Rvscale. destruct f; unfold_all; destr_ifs;
     apply triple_eq; unfold Rdiv; ring.
 Qed.
 
